@@ -182,7 +182,8 @@ def build_case(r, tier):
     odd = mode in ("split_g",) and r.chance(0.3)
     keys = (r.sample(ODD_KEYS, min(len(ODD_KEYS), ntargets)) + SAFE_KEYS)[:ntargets] if odd else SAFE_KEYS[:ntargets]
     pat, seq = key_sequence(r, keys, n)
-    recs = [[("k", seq[i]), ("id", str(i + 1)), ("v", r.choice(gen.VOCAB_A)), ("w", str(r.randint(0, 999)))] for i in range(n)]
+    vocab = gen.VOCAB_A if ofmt != "tsv" or r.chance(0.3) else ["back\\slash", "tab\there", "x\\y\\", "\\", "pan", "a\tb\tc"]  # values the TSV writer must escape
+    recs = [[("k", seq[i]), ("id", str(i + 1)), ("v", r.choice(vocab)), ("w", str(r.randint(0, 999)))] for i in range(n)]
     case = {"kind": mode, "lru": cap, "ifmt": ifmt, "ofmt": ofmt, "pattern": pat, "recs": recs, "cseed": r.randint(1, 1 << 40),
             "batch": r.choice([None, 1, 2, 3, 7]), "nconf": 4 if tier == "quick" else 8, "pre": {}}
     if bulk:
